@@ -3,6 +3,8 @@ package main
 // seq engine: histories of public operations over a pool of live frames (C01, C02, C20).
 
 import (
+	"bytes"
+	"encoding/hex"
 	"fmt"
 	"strconv"
 	"strings"
@@ -197,6 +199,8 @@ func (s *seqState) stepOnce() {
 	}
 	if len(s.kinds) > 0 {
 		kind = Pick(r, s.kinds)
+	} else if r.Chance(4) && len(s.pool) < 9 {
+		kind = "csvrt"
 	}
 	t := r.Intn(len(s.pool))
 	if s.mode == "c02" && len(s.pool) > 1 && r.Chance(50) {
@@ -209,6 +213,10 @@ func (s *seqState) stepOnce() {
 	s.extra = nil
 	if kind == "qrow" || kind == "qnames" || kind == "qshape" {
 		s.query(kind, t, f, n, bad)
+		return
+	}
+	if kind == "csvrt" {
+		s.csvRoundTrip(t, f)
 		return
 	}
 	e.Tok("OP")
@@ -603,6 +611,30 @@ func (s *seqState) stepOnce() {
 	e.Tok("R", status)
 	if s.extra != nil {
 		s.extra()
+	}
+	s.dump()
+}
+
+// csvRoundTrip: ToCSVWriter then FromCSVReader; the imported frame joins the pool (CSV import inside histories)
+func (s *seqState) csvRoundTrip(t int, f *DF) {
+	e := s.e
+	var buf bytes.Buffer
+	var back *DF
+	status, _ := guard(func() error {
+		if err := f.ToCSVWriter(&buf); err != nil {
+			return err
+		}
+		var err error
+		back, err = dataframe.FromCSVReader(bytes.NewReader(buf.Bytes()))
+		return err
+	})
+	noteFields(e, buf.Bytes())
+	e.Tok("CS")
+	e.Int(t)
+	e.Tok("x" + hex.EncodeToString(buf.Bytes()))
+	e.Tok("R", status)
+	if status == "ok" && back != nil {
+		s.pool = append(s.pool, back)
 	}
 	s.dump()
 }
